@@ -50,6 +50,28 @@ def renderWith (same : Placement → Placement → Bool) (s : State) : State × 
   let writes := s.next.filter fun p1 => !(last'.any fun p2 => same p1 p2)
   ({ next := s.next, last := s.next, refresh := false }, ⟨deletes, writes⟩)
 
+/-- The same two loops **interpreted** from the regenerated statement skeleton `Gen.renderShape` (round 3): a
+    statement that is not in the source does not happen in the model.  With every statement present this is
+    `renderWith` (`Lemmas.Placements.renderShaped_std`). -/
+def renderShaped (sh : RenderShape) (same : Placement → Placement → Bool) (s : State) : State × Out :=
+  let deletes := s.last.filter fun p1 =>
+    if sh.delOnRefresh && s.refresh then true
+    else if sh.delKeepSame && (s.next.any fun p2 => same p1 p2) then false
+    else sh.delRest
+  let last' := if sh.clearOnRefresh && s.refresh then [] else s.last
+  let writes := s.next.filter fun p1 =>
+    if sh.writeSkipSame && (last'.any fun p2 => same p1 p2) then false else sh.writeRest
+  ({ next := s.next, last := if sh.saveLast then s.next else last', refresh := false }, ⟨deletes, writes⟩)
+
+/-- One application-level step with the interpreted render (what the driver runs). -/
+def stepShaped (sh : RenderShape) (same : Placement → Placement → Bool) (s : State) : Op → State × Option Out
+  | .draw p => ({ s with next := s.next ++ [p] }, none)
+  | .clear => ({ s with next := [] }, none)
+  | .render => let (s', o) := renderShaped sh same s; (s', some o)
+  | .refresh => let (s', o) := renderShaped sh same { s with refresh := true }; (s', some o)
+
+def stepGen : State → Op → State × Option Out := stepShaped renderShape samePlacement
+
 def stepWith (same : Placement → Placement → Bool) (s : State) : Op → State × Option Out
   | .draw p => ({ s with next := s.next ++ [p] }, none)
   | .clear => ({ s with next := [] }, none)
